@@ -125,3 +125,22 @@ def is_fresh_container(v):
     if isinstance(v, ast.BinOp) and isinstance(v.op, ast.Add):
         return True      # list + list builds a new list
     return False
+
+
+def loop_stop_nodes(ctx, f):
+    """[(node, deferred)] - nodes of `f` that stop the event loop (or hand the shutdown to a
+    callback whose name says stop/close): deferred through loop.add_callback, or a direct
+    `<..>loop.stop()` call."""
+    from sa.dataflow import reaching_defs
+    from sa import astq
+    rd = reaching_defs(ctx, f)
+    out = []
+    for x in ctx.live_nodes(f):
+        for c in x.calls():
+            if astq.call_last(c) == 'add_callback' and c.args and \
+                    all('stop' in a.text() for a in rd.expand(x, c.args[0])):
+                out.append((x, True))
+            elif isinstance(c.func, ast.Attribute) and c.func.attr == 'stop' and not c.args and \
+                    astq.norm_text(c.func.value).split('.')[-1] in ('loop', 'io_loop', 'ioloop'):
+                out.append((x, False))
+    return out
